@@ -224,20 +224,40 @@ theorem same_exec {s : State} {i : Nat} {u a : Sub} {e : EPc} (h : s.subs[i]? = 
   have := same_setSub (a := a) h hc
   exact ⟨rfl, rfl, rfl, rfl, this.2.2.2.2⟩
 
+/-- Only subscriber `i` changed. -/
+def Others (i : Nat) (s s' : State) : Prop := ∀ j, j ≠ i → s'.subs[j]? = s.subs[j]?
+
+theorem others_exec {s : State} {i : Nat} {a : Sub} {e : EPc} :
+    Others i s { s with subs := s.subs.set i a, epc := e } := by
+  intro j hj
+  simp only [List.getElem?_set]
+  split
+  · omega
+  · rfl
+
+theorem others_exec2 {s : State} {i : Nat} {a b : Sub} {e : EPc} :
+    Others i s { setSub s i a with subs := (setSub s i a).subs.set i b, epc := e } := by
+  intro j hj
+  simp only [setSub, List.getElem?_set]
+  split
+  · omega
+  · rfl
+
 /-- The fan-out gets past subscriber `i`: it has room, or it has left (exit channel closed — after
 letting its forwarder reach that point), or the batcher is closed, or its reader still reads (the
 forwarder hands over its value and takes the next one, which frees a slot). -/
 theorem pass_one (hfix : cfg.fixed = true) (hcap : 0 < cfg.cap) {s : State} (hr : Reach (lts cfg) s) {r : It} {i : Nat}
-    {u : Sub} (he : s.epc = .sending r i) (hi : s.subs[i]? = some u) (hd : stalled i → u.ctxDone = true) :
-    ∃ s', St cfg stalled s s' ∧ s'.epc = .sending r (i + 1) ∧ Same s s' := by
+    {u : Sub} (he : s.epc = .sending r i) (hi : s.subs[i]? = some u)
+    (hd : stalled i → u.ctxDone = true ∨ u.buf.length < cfg.cap) :
+    ∃ s', St cfg stalled s s' ∧ s'.epc = .sending r (i + 1) ∧ Same s s' ∧ Others i s s' := by
   have hS := invSub hr u (List.mem_of_getElem? hi)
   have hK := invCap hr u (List.mem_of_getElem? hi)
   by_cases hdone : u.pc = .done
-  · exact ⟨_, st_one (allowed_int rfl) (do_skipGone he hi hdone), rfl, same_exec hi rfl⟩
+  · exact ⟨_, st_one (allowed_int rfl) (do_skipGone he hi hdone), rfl, same_exec hi rfl, others_exec⟩
   by_cases hcl : s.closed = true
-  · exact ⟨_, st_one (allowed_int rfl) (do_skipClose he hi hdone hcl), rfl, same_exec hi rfl⟩
+  · exact ⟨_, st_one (allowed_int rfl) (do_skipClose he hi hdone hcl), rfl, same_exec hi rfl, others_exec⟩
   by_cases hroom : u.buf.length < cfg.cap
-  · exact ⟨_, st_one (allowed_int rfl) (do_send he hi hdone hroom), rfl, same_exec hi rfl⟩
+  · exact ⟨_, st_one (allowed_int rfl) (do_send he hi hdone hroom), rfl, same_exec hi rfl, others_exec⟩
   by_cases hctx : u.ctxDone = true
   · -- the subscriber has left: let its forwarder close the exit channel, then skip it
     obtain ⟨u', hs1, hpc', hx', hc', _⟩ := fwd_leave (cfg := cfg) (stalled := stalled) hi hdone (Or.inl hctx)
@@ -245,10 +265,13 @@ theorem pass_one (hfix : cfg.fixed = true) (hcap : 0 < cfg.cap) {s : State} (hr 
     have hi' : (setSub s i u').subs[i]? = some u' := get_setSub hi
     have he' : (setSub s i u').epc = .sending r i := he
     have h2 := do_skipExit (cfg := cfg) he' hi' (by simp [hpc']) (by rw [hx', hfix])
-    refine ⟨_, hs1.trans (st_one (allowed_int rfl) h2), rfl, ?_⟩
+    refine ⟨_, hs1.trans (st_one (allowed_int rfl) h2), rfl, ?_, others_exec2⟩
     exact (same_setSub hi hc').trans (same_exec hi' rfl)
   · -- a live subscriber with a full buffer whose reader still reads
-    have hns : ¬ stalled i := fun h => hctx (hd h)
+    have hns : ¬ stalled i := fun h => by
+      rcases hd h with h1 | h1
+      · exact hctx h1
+      · exact hroom h1
     have hlive : u.pc = .idle ∨ ∃ x, u.pc = .holding x := by
       cases hpc : u.pc with
       | idle => exact Or.inl rfl
@@ -276,13 +299,18 @@ theorem pass_one (hfix : cfg.fixed = true) (hcap : 0 < cfg.cap) {s : State} (hr 
       have : u.buf.length = rest.length + 1 := by rw [← hvb, hxr]; simp
       omega
     have h3 := do_send (cfg := cfg) hew hiw (by simp [w]) hlen
-    refine ⟨_, (hs1.trans (st_one (allowed_int rfl) h2)).trans (st_one (allowed_int rfl) h3), rfl, ?_⟩
+    refine ⟨_, (hs1.trans (st_one (allowed_int rfl) h2)).trans (st_one (allowed_int rfl) h3), rfl, ?_, others_exec2⟩
     exact (same_setSub (a := w) hi hvc).trans (same_exec hiw rfl)
 
+/-- Subscriber `j` cannot block the fan-out for ever: its reader still reads, or its context has
+ended, or its buffer has room for one more value. -/
+def PassableFrom (stalled : Nat → Prop) (cap i : Nat) (s : State) : Prop :=
+  ∀ j u, i ≤ j → s.subs[j]? = some u → stalled j → u.ctxDone = true ∨ u.buf.length < cap
+
 /-- The fan-out completes. -/
-theorem fanout (hfix : cfg.fixed = true) (hcap : 0 < cfg.cap) :
+theorem fanoutG (hfix : cfg.fixed = true) (hcap : 0 < cfg.cap) :
     ∀ (k : Nat) {s : State} {r : It} {i : Nat}, Reach (lts cfg) s → s.epc = .sending r i → s.subs.length - i = k →
-      Departed stalled s →
+      PassableFrom stalled cfg.cap i s →
       ∃ s' j, St cfg stalled s s' ∧ s'.epc = .sending r j ∧ s'.subs.length ≤ j ∧ Same s s' := by
   intro k
   induction k with
@@ -293,10 +321,56 @@ theorem fanout (hfix : cfg.fixed = true) (hcap : 0 < cfg.cap) :
     intro s r i hr he hk hd
     have hlt : i < s.subs.length := by omega
     have hi : s.subs[i]? = some s.subs[i] := List.getElem?_eq_getElem hlt
-    obtain ⟨s1, hs1, he1, hsame1⟩ := pass_one hfix hcap hr he hi (hd i _ hi)
+    obtain ⟨s1, hs1, he1, hsame1, hoth⟩ := pass_one hfix hcap hr he hi (hd i _ (Nat.le_refl _) hi)
     have hlen := hsame1.length
-    obtain ⟨s', j, hs2, he2, hj, hsame2⟩ := ih (hs1.reach hr) he1 (by omega) (hsame1.departed hd)
+    have hd1 : PassableFrom stalled cfg.cap (i + 1) s1 := by
+      intro j u hj hu hs
+      have : s1.subs[j]? = s.subs[j]? := hoth j (by omega)
+      exact hd j u (by omega) (this ▸ hu) hs
+    obtain ⟨s', j, hs2, he2, hj, hsame2⟩ := ih (hs1.reach hr) he1 (by omega) hd1
     exact ⟨s', j, hs1.trans hs2, he2, hj, hsame1.trans hsame2⟩
+
+theorem fanout (hfix : cfg.fixed = true) (hcap : 0 < cfg.cap)
+    (k : Nat) {s : State} {r : It} {i : Nat} (hr : Reach (lts cfg) s) (he : s.epc = .sending r i)
+    (hk : s.subs.length - i = k) (hd : Departed stalled s) :
+    ∃ s' j, St cfg stalled s s' ∧ s'.epc = .sending r j ∧ s'.subs.length ≤ j ∧ Same s s' :=
+  fanoutG hfix hcap k hr he hk (fun j u _ hu hs => Or.inl (hd j u hu hs))
+
+/-- **`execute` completes** when every subscriber is passable for one more value: its reader reads,
+or its context has ended (whatever its buffer holds), or its buffer has room. -/
+theorem execute_completes_room (hfix : cfg.fixed = true) (hcap : 0 < cfg.cap) {s : State} (hr : Reach (lts cfg) s)
+    {r : It} (hpc : s.p.pc = .running r) (hd : PassableFrom stalled cfg.cap 0 s) :
+    ∃ s', St cfg stalled s s' ∧ s'.p = { s.p with pc := .top } ∧ s'.epc = .idle ∧ s'.bc = s.bc ∧
+      s'.closed = s.closed ∧ s'.waitS = s.waitS := by
+  have hC := invCtl hr
+  have h1 : ∃ s1 i, St cfg stalled s s1 ∧ s1.epc = .sending r i ∧ Same s s1 ∧ s1.subs = s.subs := by
+    cases he : s.epc with
+    | idle => exact absurd hpc (hC.1 he r)
+    | waiting r' =>
+      have : r' = r := by have := hC.2.1 r' he; rw [hpc] at this; cases this; rfl
+      subst this
+      by_cases hcl : s.closed = true
+      · have h : step cfg s .execLock = some { s with epc := .sending r' s.subs.length } := by
+          simp [step, execLock, he, hcl]
+        exact ⟨_, _, st_one (allowed_int rfl) h, rfl, ⟨rfl, rfl, rfl, rfl, rfl⟩, rfl⟩
+      · have h : step cfg s .execLock = some { s with epc := .sending r' 0, out := s.out ++ [r'] } := by
+          simp [step, execLock, he, hcl]
+        exact ⟨_, _, st_one (allowed_int rfl) h, rfl, ⟨rfl, rfl, rfl, rfl, rfl⟩, rfl⟩
+    | sending r' i =>
+      have : r' = r := by have := hC.2.2.1 r' i he; rw [hpc] at this; cases this; rfl
+      subst this
+      exact ⟨s, i, Steps.refl _, he, Same.refl s, rfl⟩
+  obtain ⟨s1, i, hs1, he1, hsame1, hsubs1⟩ := h1
+  have hd1 : PassableFrom stalled cfg.cap i s1 := by
+    intro j u _ hu hs
+    exact hd j u (Nat.zero_le _) (hsubs1 ▸ hu) hs
+  obtain ⟨s2, j, hs2, he2, hj, hsame2⟩ := fanoutG hfix hcap _ (hs1.reach hr) he1 rfl hd1
+  have hsame := hsame1.trans hsame2
+  have hp2 : s2.p.pc = .running r := by rw [hsame.1]; exact hpc
+  have h3 : step cfg s2 (.proc .cbReturn) = some { s2 with p := { s2.p with pc := .top }, epc := .idle } := by
+    simp [step, procStep, he2, hj, Processor.step, hp2]
+  exact ⟨_, (hs1.trans hs2).trans (st_one (allowed_int rfl) h3), by simp [hsame.1], rfl, hsame.2.1, hsame.2.2.1,
+    hsame.2.2.2.1⟩
 
 /-- **`execute` completes**: from any reachable state in which the callback is running (waiting for
 the lock or anywhere in the fan-out), the callback returns and the loop is back at its top. -/
